@@ -534,6 +534,7 @@ package wire
 //@   ensures [on-error] implies(result1 != nil, result0 == 0)
 //@   ensures [ranges-wire-valid] implies(result1 == nil, frame.wireValid())
 //@   ensures [delay-non-negative] implies(result1 == nil, frame.DelayTime >= 0)
+//@   ensures [ecn-counts-only-from-ack-ecn-frames] implies(typ != 3, frame.ECT0 == old(frame.ECT0) && frame.ECT1 == old(frame.ECT1) && frame.ECNCE == old(frame.ECNCE))
 //@   ensures [packet-numbers-in-range] implies(result1 == nil, forall(k, 0, len(frame.AckRanges), 0 <= frame.AckRanges[k].Smallest && frame.AckRanges[k].Largest <= 4611686018427387903, trig(frame.AckRanges, k)))
 //@   modifies frame.AckRanges, frame.DelayTime, frame.ECT0, frame.ECT1, frame.ECNCE, elems(AckRange)
 //@ loop parseAckFrame #0
@@ -699,6 +700,7 @@ package wire
 //@   ensures [consumed-within-input] 0 <= result1 && result1 <= len(data)
 //@   ensures [success] implies(result2 == nil, result0 == p.ackFrame && result1 >= 4 && result0.wireValid() && result0.DelayTime >= 0)
 //@   ensures [error-kind] implies(result2 != nil, result0 == nil && iserr(result2, qerr.FrameEncodingError))
+//@   ensures [plain-ack-carries-no-ecn-counts] implies(result2 == nil && frameType == 2, result0.ECT0 == 0 && result0.ECT1 == 0 && result0.ECNCE == 0)
 //@   modifies p.ackFrame.AckRanges, p.ackFrame.DelayTime, p.ackFrame.ECT0, p.ackFrame.ECT1, p.ackFrame.ECNCE, elems(AckRange)
 
 //@ func (p *FrameParser) ParseStreamFrame
@@ -708,6 +710,7 @@ package wire
 //@   ensures [consumed-within-input] 0 <= result1 && result1 <= len(data)
 //@   ensures [error-kind] implies(result2 != nil, result0 == nil && iserr(result2, qerr.FrameEncodingError))
 //@   ensures [success] implies(result2 == nil, result0 != nil)
+//@   modifies nothing
 
 //@ func (p *FrameParser) ParseDatagramFrame
 //@   props C08
@@ -716,6 +719,7 @@ package wire
 //@   ensures [consumed-within-input] 0 <= result1 && result1 <= len(data)
 //@   ensures [error-kind] implies(result2 != nil, result0 == nil && result1 == 0 && iserr(result2, qerr.FrameEncodingError))
 //@   ensures [success] implies(result2 == nil, result0 != nil)
+//@   modifies nothing
 
 //@ func (p *FrameParser) ParseLessCommonFrame
 //@   props C08
@@ -725,6 +729,7 @@ package wire
 //@   ensures [success-has-frame] implies(result2 == nil, result0 != nil)
 //@   ensures [error-kind] implies(result2 != nil, iserr(result2, qerr.FrameEncodingError) && result1 == 0)
 //@   ensures [unknown-type-rejected] implies(!(frameType == 1 || (4 <= frameType && frameType <= 7) || (16 <= frameType && frameType <= 31) || frameType == 36 || frameType == 175), result2 != nil)
+//@   modifies nothing
 
 // ---------------- transport parameters: encoding helpers and session-ticket form (C08) ----------------
 //@ spec tpvarlen(id uint64, val uint64) int = quicvarint.vlen(id) + 1 + quicvarint.vlen(val)
@@ -839,4 +844,12 @@ package wire
 //@   ensures [header-or-error] implies(result0 == nil, result1 != nil)
 //@   ensures [parsed] implies(result0 != nil, 1 <= result0.PacketNumberLen && result0.PacketNumberLen <= 4 && result0.parsedLen == h.parsedLen + int64(result0.PacketNumberLen) && result0.parsedLen <= len(data) && 0 <= result0.PacketNumber)
 //@   ensures [reserved-bits-reported] implies(result0 != nil, iff(result1 != nil, data[0] & 12 != 0))
+//@   modifies nothing
+
+//@ func IsProbingFrameType
+//@   props C07
+//@   ensures [rfc9000-9.1] iff(result, f == 26 || f == 27 || f == 24)
+//@   modifies nothing
+//@ func LogFrame
+//@   trusted logging only
 //@   modifies nothing
